@@ -1,7 +1,7 @@
 (* Model of Roller.Dial (u_roller.go:73-121, sameHelloID :49-64) as a pure
    function of: the configured ids, the shuffled copy (any permutation; the
-   shuffle's randomness is an input), the remembered working id, whether each
-   TCP dial succeeds, the seeds the library generates for unseeded randomized
+   shuffle's randomness is an input), the remembered working id, how long each
+   TCP connect takes (or that it is refused), the TCP dial timeout, the seeds the library generates for unseeded randomized
    ids, the handshake timeout, and how the peer treats each fingerprint it
    sees (serves it after some delay, refuses it after some delay, or reads the
    ClientHello and stays silent). *)
@@ -82,27 +82,44 @@ Definition would_succeed (T : N) (b : peer_beh) : bool :=
 
 Inductive outcome := Connected (i : hid) | TcpError (attempt : nat) | AllFailed | NoIds.
 
+(* What the network does with the k-th TCP connect: completes after d, or fails at once. *)
+Inductive tcp_beh := Connects (d : N) | Refused.
+
+(* line 101: net.DialTimeout(network, addr, c.TcpDialTimeout) - the timeout runs from the start of THIS
+   dial.  Returns whether a connection was made and the time at which the call returns. *)
+Definition tcp_dial (now Dt : N) (b : tcp_beh) : bool * N :=
+  let deadline := now + Dt in
+  match b with
+  | Connects d => if now + d <? deadline then (true, now + d) else (false, deadline)
+  | Refused => (false, now)
+  end.
+(* the outcome of one TCP dial in isolation *)
+Definition tcp_connects (Dt : N) (b : tcp_beh) : bool :=
+  match b with Connects d => d <? Dt | Refused => false end.
+
 Section Loop.
-  Variables (tcp_ok : nat -> bool) (gen : nat -> N) (T : N) (peer : hid -> peer_beh).
+  Variables (tcpd : nat -> tcp_beh) (Dt : N) (gen : nat -> N) (T : N) (peer : hid -> peer_beh).
 
   (* lines 98-120; k = number of TCP dials made so far, now = current time.
      Result: the configured ids tried, the fingerprints sent with the way
-     their handshake ended, and how the call ends. *)
+     their handshake ended, how the call ends, and when. *)
   Fixpoint attempt_loop (order : list hid) (k : nat) (now : N)
-    : list hid * list (hid * hsres) * outcome :=
+    : list hid * list (hid * hsres) * outcome * N :=
     match order with
-    | [] => ([], [], if (k =? 0)%nat then NoIds else AllFailed)
+    | [] => ([], [], if (k =? 0)%nat then NoIds else AllFailed, now)
     | x :: r =>
-      if negb (tcp_ok k) then ([], [], TcpError k)
-      else
+      match tcp_dial now Dt (tcpd k) with
+      | (false, t1) => ([], [], TcpError k, t1)                 (* line 103: return nil, err *)
+      | (true, t1) =>
         let f := conn_id gen k x in
-        match handshake now T (peer f) with
-        | (HsOk, _) => ([x], [(f, HsOk)], Connected f)          (* line 116: WorkingHelloID = &client.ClientHelloID *)
-        | (o, now') =>
-          match attempt_loop r (S k) now' with
-          | (tr, wi, res) => (x :: tr, (f, o) :: wi, res)
+        match handshake t1 T (peer f) with
+        | (HsOk, t2) => ([x], [(f, HsOk)], Connected f, t2)     (* line 116: WorkingHelloID = &client.ClientHelloID *)
+        | (o, t2) =>
+          match attempt_loop r (S k) t2 with
+          | (tr, wi, res, te) => (x :: tr, (f, o) :: wi, res, te)
           end
         end
+      end
     end.
 End Loop.
 
@@ -110,14 +127,15 @@ Record dial_result := {
   tried : list hid;              (* configured ids used, in order *)
   wire : list (hid * hsres);     (* fingerprint of each ClientHello sent, and how that handshake ended *)
   result : outcome;
-  working' : option hid }.
+  working' : option hid;
+  t_end : N }.                   (* time at which Dial returns *)
 
-Definition dial (sh : list hid) (working : option hid) (tcp_ok : nat -> bool) (gen : nat -> N)
+Definition dial (sh : list hid) (working : option hid) (tcpd : nat -> tcp_beh) (Dt : N) (gen : nat -> N)
            (T : N) (peer : hid -> peer_beh) (now : N) : dial_result :=
-  match attempt_loop tcp_ok gen T peer (prioritise sh working) 0 now with
-  | (tr, wi, o) =>
+  match attempt_loop tcpd Dt gen T peer (prioritise sh working) 0 now with
+  | (tr, wi, o, te) =>
     {| tried := tr; wire := wi; result := o;
-       working' := match o with Connected i => Some i | _ => working end |}
+       working' := match o with Connected i => Some i | _ => working end; t_end := te |}
   end.
 
 (* fingerprints of a list of configured ids tried in attempts k, k+1, ... *)
@@ -165,6 +183,21 @@ Definition trace_ok (ids : list hid) (working : option hid) (T : N)
       forallb (fun a => negb (would_succeed T (snd a))) tr &&
       (tcp_err || (length tr =? length p)%nat)
   end.
+
+(* A TCP dial error while the peer accepts every connection can only be a dial that used up its whole
+   TcpDialTimeout, after every timed-out handshake used up its whole TlsHandshakeTimeout: the call must
+   have lasted at least that long.  (elapsed, T, Dt in the same unit.) *)
+Definition timed_out (T : N) (b : peer_beh) : bool :=
+  match hs_outcome T b with HsTimeout => true | _ => false end.
+Fixpoint n_timeouts (wi : list (hid * hsres)) : N :=
+  match wi with
+  | [] => 0
+  | a :: r => (match snd a with HsTimeout => 1 | _ => 0 end) + n_timeouts r
+  end.
+Definition time_ok (T Dt : N) (tr : list (hid * peer_beh)) (tcp_err listening : bool) (elapsed : N) : bool :=
+  if tcp_err && listening
+  then T * N.of_nat (length (filter (fun a => timed_out T (snd a)) tr)) + Dt <=? elapsed
+  else true.
 
 Definition conn_of (o : outcome) : option hid := match o with Connected i => Some i | _ => None end.
 Definition is_tcp_err (o : outcome) : bool := match o with TcpError _ => true | _ => false end.
